@@ -1,11 +1,15 @@
 package main
 
 import (
+	"errors"
 	"fmt"
+	"io"
 	"os"
 	"path"
 	"sort"
 	"strings"
+
+	pongo2 "github.com/flosch/pongo2/v6"
 )
 
 func init() { suites["c11-trees"] = suiteC11 }
@@ -83,7 +87,9 @@ const canaryPath = "/tmp/verif_c11_canary.tpl"
 const canaryText = "CANARY-CONTENT-FROM-THE-REAL-FILE-SYSTEM"
 
 func suiteC11(cfg Config, res *Result) {
-	res.Rule = "virtual file trees (nested directories; relative, rooted and ..-names; 1-3 recording loaders with overlapping contents) x acyclic reference graphs via include (static / lazy, with / only / if_exists), import, ssi (plain / parsed); a canary file exists on the real file system under a name the tree references but no loader serves; oracle: every Get is for a name some involved template references (resolved against the referrer), loaders are asked in order and the first that has the name wins, a missing name is an error (nothing with if_exists), the canary's content never appears, and the output equals the reference expansion; also compared with the Lean model incl. the Get log; non-trivial = tree with >= 2 loaders or a relative/.. name; distinct by tree"
+	defer c11BrokenReads(cfg, res)
+	defer c11Layouts(cfg, res)
+	res.Rule = "pages extending layouts in other directories (one or two levels) that include / ssi / import their own neighbours by relative names while same-named files sit next to the layouts: every name resolves against the template it is written in; a first loader whose reader fails part way: the reference fails and the next loader's file is never used; virtual file trees (nested directories; relative, rooted and ..-names; 1-3 recording loaders with overlapping contents) x acyclic reference graphs via include (static / lazy, with / only / if_exists), import, ssi (plain / parsed); a canary file exists on the real file system under a name the tree references but no loader serves; oracle: every Get is for a name some involved template references (resolved against the referrer), loaders are asked in order and the first that has the name wins, a missing name is an error (nothing with if_exists), the canary's content never appears, and the output equals the reference expansion; also compared with the Lean model incl. the Get log; non-trivial = tree with >= 2 loaders or a relative/.. name; distinct by tree"
 	os.WriteFile(canaryPath, []byte(canaryText), 0o644)
 	defer os.Remove(canaryPath)
 	n := 2500
@@ -334,6 +340,154 @@ func suiteC11(cfg Config, res *Result) {
 			}
 			return nil
 		})
+}
+
+// c11Layouts: a page extends a layout that lives in another directory (possibly through a second
+// layout in a third one) and refers to its own neighbours by relative names; files of the same
+// names exist next to the layouts.  Every relative name resolves against the template it is
+// written in.
+func c11Layouts(cfg Config, res *Result) {
+	rng := NewRNG(cfg.Seed ^ 0x1a70)
+	n := 300
+	if cfg.Thorough() {
+		n = 5000
+	}
+	var cases []ProgCase
+	wants := map[string]string{}
+	for i := 0; i < n; i++ {
+		pd := rng.Pick([]string{"pages", "site/pages", "p"})
+		ld := rng.Pick([]string{"layouts", "site/layouts", "l/x"})
+		gd := rng.Pick([]string{"grand", "site/grand"})
+		up := func(from, to string) string { // relative path from directory `from` to file in directory `to`
+			if rng.Bool() {
+				return "/" + to
+			}
+			return strings.Repeat("../", strings.Count(from, "/")+1) + to
+		}
+		files := map[string]string{}
+		mac := func(tag string) string { return "{% macro mm() export %}M-" + tag + "{% endmacro %}" }
+		for _, d := range []string{pd, ld, gd} {
+			files["/"+d+"/part.tpl"] = "PART-" + d
+			files["/"+d+"/lib.tpl"] = mac(d)
+			files["/"+d+"/note.txt"] = "NOTE-" + d
+		}
+		two := rng.Bool()
+		// what the layout itself pulls in: its own neighbour
+		layoutOwn := rng.Pick([]string{"", `{% include "part.tpl" %}`, `{% ssi "note.txt" %}`})
+		layoutOwnOut := map[string]string{"": "", `{% include "part.tpl" %}`: "PART-" + ld, `{% ssi "note.txt" %}`: "NOTE-" + ld}[layoutOwn]
+		if two {
+			files["/"+gd+"/root.tpl"] = "G<{% block c %}g{% endblock %}|{% block e %}ge{% endblock %}>"
+			files["/"+ld+"/base.tpl"] = `{% extends "` + up(ld, gd+"/root.tpl") + `" %}{% block e %}` + layoutOwn + `{% endblock %}`
+		} else {
+			files["/"+ld+"/base.tpl"] = "L<{% block c %}l{% endblock %}|{% block e %}" + layoutOwn + "{% endblock %}>"
+		}
+		var body, out strings.Builder
+		for q := 0; q < 1+rng.Intn(3); q++ {
+			switch rng.Intn(5) {
+			case 0:
+				body.WriteString(`{% include "part.tpl" %}`)
+				out.WriteString("PART-" + pd)
+			case 1:
+				body.WriteString(`{% ssi "note.txt" %}`)
+				out.WriteString("NOTE-" + pd)
+			case 2:
+				body.WriteString(`{% ssi "part.tpl" parsed %}`)
+				out.WriteString("PART-" + pd)
+			case 3:
+				body.WriteString(`{% import "lib.tpl" mm %}{{ mm() }}`)
+				out.WriteString("M-" + pd)
+			default:
+				body.WriteString(`{% include lz %}`)
+				out.WriteString("PART-" + pd)
+			}
+			body.WriteString(",")
+			out.WriteString(",")
+		}
+		files["/"+pd+"/page.tpl"] = `{% extends "` + up(pd, ld+"/base.tpl") + `" %}{% block c %}` + body.String() + `{% endblock %}`
+		want := "L<" + out.String() + "|" + layoutOwnOut + ">"
+		if two {
+			want = "G<" + out.String() + "|" + layoutOwnOut + ">"
+		}
+		ct := CtxTerm{Names: []string{"lz"}, Vals: []VT{vStr("part.tpl")}}
+		pc := ProgCase{Src: "/" + pd + "/page.tpl", FromFile: true, Loaders: []map[string]string{files}, Ctx: &ct, Label: "layouts"}
+		cases = append(cases, pc)
+		wants[pc.Req()] = want
+	}
+	runProgCases(cfg, res, cases, "c11l", func(c ProgCase, o ImplOutcome) bool { return true },
+		func(c ProgCase, o ImplOutcome) *Finding {
+			want := wants[c.Req()]
+			if o.Class != "ok" || o.Out != want {
+				return &Finding{Kind: "oracle", Proj: "loaders", Sig: "c11-relative-name-resolution", Case: c.String(), Impl: o.Canon() + " " + o.Msg, Model: "every name resolves against the template it is written in: ok " + hxb(want)}
+			}
+			return nil
+		})
+}
+
+// errAfter is a reader that delivers some bytes and then fails
+type errAfter struct {
+	data []byte
+	done bool
+}
+
+func (e *errAfter) Read(p []byte) (int, error) {
+	if e.done || len(e.data) == 0 {
+		return 0, errors.New("read failed")
+	}
+	n := copy(p, e.data)
+	e.data = e.data[n:]
+	e.done = true
+	return n, nil
+}
+
+// brokenLoader has every name of `files` but its readers fail part way through
+type brokenLoader struct {
+	memLoader
+}
+
+func (b *brokenLoader) Get(p string) (io.Reader, error) {
+	r, err := b.memLoader.Get(p)
+	if err != nil {
+		return nil, err
+	}
+	data, _ := io.ReadAll(r)
+	return &errAfter{data: data[:len(data)/2]}, nil
+}
+
+// c11BrokenReads: the first loader that has a name wins also when reading from it fails: the
+// reference is an error, the next loader's file of the same name is never rendered
+func c11BrokenReads(cfg Config, res *Result) {
+	forms := []string{`{% include "part.tpl" %}`, `{% include lz %}`, `{% ssi "part.tpl" %}`, `{% ssi "part.tpl" parsed %}`, `{% extends "part.tpl" %}`, `{% import "part.tpl" mm %}{{ mm() }}`,
+		`{% include "part.tpl" if_exists %}`, `{% include lz if_exists %}`}
+	for _, form := range forms {
+		sink := &sharedLog{}
+		first := &brokenLoader{memLoader{files: map[string]string{"part.tpl": "FIRST-LOADER-PART-FIRST-LOADER-PART{% macro mm() export %}m1{% endmacro %}"}, id: "0", sink: sink}}
+		second := &memLoader{files: map[string]string{"part.tpl": "SECOND-LOADER-PART{% macro mm() export %}SECOND-LOADER-PART{% endmacro %}", "main.tpl": "[" + form + "]"}, id: "1", sink: sink}
+		set := pongo2.NewSet("broken", first, second)
+		res.Cases++
+		res.DistinctNontrivial++
+		out, class := "", "ok"
+		func() {
+			defer func() {
+				if p := recover(); p != nil {
+					class = "panic"
+				}
+			}()
+			tpl, err := set.FromFile("main.tpl")
+			if err != nil {
+				class = "compile"
+				return
+			}
+			o, err := tpl.Execute(pongo2.Context{"lz": "part.tpl"})
+			if err != nil {
+				class = "exec"
+				return
+			}
+			out = o
+		}()
+		if strings.Contains(out, "SECOND-LOADER-PART") || class == "panic" {
+			res.add(Finding{Kind: "oracle", Proj: "loaders", Sig: "c11-later-loader-won", Case: "main.tpl=[" + form + "]; loader 0 has part.tpl but reading it fails, loader 1 has another part.tpl", Impl: class + " " + out, Model: "the first loader that has the name wins: the reference fails, the second loader's file is never used"})
+		}
+	}
 }
 
 // relTo writes target relative to the directory of from, if it lies below it or next to it.
